@@ -20,6 +20,7 @@ import DSymVerif.Proofs.CoversWitness
 import DSymVerif.Proofs.CoversOrientedDeg
 import DSymVerif.Proofs.CoversMonitors
 import DSymVerif.Proofs.CoversWired
+import DSymVerif.Proofs.CoversIso
 import DSymVerif.Proofs.DSetExamples
 
 namespace DSymVerif.C05
@@ -342,6 +343,69 @@ theorem finite_universal_cover_is_covering (ds : DSymData) (hs : ValidSym ds) (h
 
 example : ValidSym (DSymData.ofSimple ex2) ∧ 1 ≤ (DSymData.ofSimple ex2).size ∧
     1 ≤ (DSymData.ofSimple ex2).dim := ⟨ex2_validSym, by decide, by decide⟩
+
+/-- **covers_one_entry_per_conjugacy_class.**  For every valid symbol and every bound `k` the model
+    of `covers(ds, k)` (enough fuel) returns a list `cs` that corresponds entry by entry, in order,
+    to the tables yielded by `coset_tables` for the returned presentation `⟨1..n | relators⟩` of the
+    fundamental group, such that
+    * every entry is the covering (`IsCoverOf`) whose operations are those of its table:
+      `op_i(sz·k + b) = sz·(k·edge_to_word(b,i)) + op_i b` (`TableOps`) — so the subgroup the cover
+      belongs to (the stabiliser of sheet 0 under the cover's own sheet action) is the stabiliser
+      `stab0` of row 0 of the table, and the number of sheets is its index, at most `max k 1`;
+    * the subgroups of two entries at different positions are not conjugate;
+    * every subgroup of index `1..k` of the presented group is conjugate to the subgroup of an entry.
+    I.e. the list has exactly one entry per conjugacy class of subgroups of index at most `k`
+    (C12 `cosetTables_subgroup_classes` transported along the entry ↔ table correspondence; the
+    returned presentation is the textbook orbifold group by C09 `presents_orbifold_group`). -/
+theorem covers_one_entry_per_conjugacy_class (ds : DSymData) (hs : ValidSym ds) (hsz : 1 ≤ ds.size)
+    (hdim : 1 ≤ ds.dim) (k fuel : Nat) :
+    ∃ f, fundamentalGroup ds = .ok f ∧
+      ((BT.dfs (btProblem f.nrGenerators (expandedRelatorSet f.relators) k) (height k)
+          (.ok (Cosets.Table.new f.nrGenerators))).length ≤ fuel →
+        ∃ cs, Covers.covers ds k fuel = .ok cs ∧
+          List.Forall₂ (fun x c => ∃ (t : Cosets.Table) (v : List (List Int))
+              (hv : CosetP.Valid (CosetInvP.viewTab v) f.nrGenerators f.relators []),
+              x = Outcome.ok t ∧ t.view = .ok v ∧ coverForTableC ds t f.edgeToWord = .ok c ∧
+              IsCoverOf ds c (CosetInvP.viewTab v).size ∧
+              TableOps ds c f.edgeToWord (CosetInvP.viewTab v) f.nrGenerators ∧
+              (CosetP.stab0 hv).index = (CosetInvP.viewTab v).size ∧
+              (CosetInvP.viewTab v).size ≤ max k 1)
+            (cosetTables f.nrGenerators f.relators k fuel) cs ∧
+          (cosetTables f.nrGenerators f.relators k fuel).Pairwise (fun x y =>
+            ∀ (t1 t2 : Cosets.Table) (v1 v2 : List (List Int))
+              (hv1 : CosetP.Valid (CosetInvP.viewTab v1) f.nrGenerators f.relators [])
+              (hv2 : CosetP.Valid (CosetInvP.viewTab v2) f.nrGenerators f.relators []),
+              x = .ok t1 → y = .ok t2 → t1.view = .ok v1 → t2.view = .ok v2 →
+              ¬ CanonP.SubConj (CosetP.stab0 hv1) (CosetP.stab0 hv2)) ∧
+          (∀ H : Subgroup (PresentedGroup (CosetP.relSet f.nrGenerators f.relators)),
+            H.index ≠ 0 → H.index ≤ k →
+            ∃ (t : Cosets.Table) (v : List (List Int))
+              (hv : CosetP.Valid (CosetInvP.viewTab v) f.nrGenerators f.relators []),
+              (Outcome.ok t) ∈ cosetTables f.nrGenerators f.relators k fuel ∧ t.view = .ok v ∧
+              CanonP.SubConj H (CosetP.stab0 hv))) :=
+  covers_classes hs hsz hdim k fuel
+
+example : ValidSym (DSymData.ofSimple ex2) ∧ 1 ≤ (DSymData.ofSimple ex2).size ∧
+    1 ≤ (DSymData.ofSimple ex2).dim := ⟨ex2_validSym, by decide, by decide⟩
+
+/-- **covers_pairwise_nonisomorphic.**  On a connected valid symbol no two entries of the model of
+    `covers(ds, k)` at different positions are isomorphic as covers of `ds`: there is no injective
+    map `φ` of the chambers commuting with the projection and with every operation (`CoverIso`).
+    (Such a `φ` is one permutation `Ψ` of the sheets — tree facets act trivially and the base is
+    connected — commuting with the action of every facet word, hence with every generator letter
+    (C09 `generator_facet_pairs`) and its inverse: an isomorphism of the two coset tables, whose
+    stabilisers would be conjugate, contradicting C12.) -/
+theorem covers_pairwise_nonisomorphic (ds : DSymData) (hs : ValidSym ds) (hsz : 1 ≤ ds.size)
+    (hdim : 1 ≤ ds.dim) (hconn : ds.view.isConnected = true) (k fuel : Nat) :
+    ∃ f, fundamentalGroup ds = .ok f ∧
+      ((BT.dfs (btProblem f.nrGenerators (expandedRelatorSet f.relators) k) (height k)
+          (.ok (Cosets.Table.new f.nrGenerators))).length ≤ fuel →
+        ∃ cs, Covers.covers ds k fuel = .ok cs ∧
+          cs.Pairwise (fun c1 c2 => ∀ φ, ¬ (c2.size = c1.size ∧ CoverIso ds c1 c2 c1.size φ))) :=
+  CoversP.covers_pairwise_nonisomorphic hs hsz hdim hconn k fuel
+
+example : ValidSym (DSymData.ofSimple ex2) ∧ (DSymData.ofSimple ex2).view.isConnected = true :=
+  ⟨ex2_validSym, by decide +kernel⟩
 
 /-- every fibre of the projection of an `n`-sheeted cover has exactly `n` chambers -/
 theorem cover_fibres (sz b n : Nat) (hb1 : 1 ≤ b) (hb2 : b ≤ sz) :
